@@ -24,9 +24,14 @@ Tie to the code:
      prediction.
 """
 import ctypes
+import json
 import os
 import random
+import select
+import signal
 import sys
+import time
+import traceback
 
 import common
 from common import InfraError
@@ -108,6 +113,7 @@ def part_a(ctx, nops, rng=None, oracle_only=False, stop_at=None):
     canon = Canon()
     live = []                      # addresses, in allocation order
     liveset = set()
+    freed_once = set()
     lines, expect = [], []
     dumpbuf_n = 0
     dumpbuf = None
@@ -130,7 +136,7 @@ def part_a(ctx, nops, rng=None, oracle_only=False, stop_at=None):
                 # free k blocks then allocate k: the allocations must come back in reverse order
                 burst = rng.randint(1, min(6, len(live)))
                 for _ in range(burst):
-                    idx = _free_a(ctx, lib, rng, canon, live, liveset, lines, expect, idx, base_case)
+                    idx = _free_a(ctx, lib, rng, canon, live, liveset, freed_once, lines, expect, idx, base_case)
                 continue
             else:
                 do_alloc = (not live) or rng.random() < P_ALLOC[kind]
@@ -156,7 +162,7 @@ def part_a(ctx, nops, rng=None, oracle_only=False, stop_at=None):
                         ctx.fail(case, "more_core put a live or duplicated block on the free list")
                 else:
                     ctx.count("A:alloc-reuse")
-                ctx.case(("A", idx), sample=case if idx < 3 else None)
+                ctx.case(("A", idx) if (before == 0 or p in freed_once) else None, sample=case if idx < 3 else None)
                 # property oracle: the new closure's address differs from every live one
                 if p in liveset:
                     ctx.fail(case, "cffi_closure_alloc handed out a block that is still live")
@@ -167,7 +173,7 @@ def part_a(ctx, nops, rng=None, oracle_only=False, stop_at=None):
                 expect.append((case, "ok %d" % canon(p)))
                 idx += 1
             else:
-                idx = _free_a(ctx, lib, rng, canon, live, liveset, lines, expect, idx, base_case)
+                idx = _free_a(ctx, lib, rng, canon, live, liveset, freed_once, lines, expect, idx, base_case)
             if idx % 997 == 0:
                 flen = lib.verif_free_list_len(BOUND)
                 lines.append("state")
@@ -196,7 +202,7 @@ def part_a(ctx, nops, rng=None, oracle_only=False, stop_at=None):
                 break
 
 
-def _free_a(ctx, lib, rng, canon, live, liveset, lines, expect, idx, base_case):
+def _free_a(ctx, lib, rng, canon, live, liveset, freed_once, lines, expect, idx, base_case):
     if not live:
         return idx
     # mostly recent blocks (LIFO-ish use), sometimes any
@@ -206,6 +212,7 @@ def _free_a(ctx, lib, rng, canon, live, liveset, lines, expect, idx, base_case):
         i = rng.randrange(len(live))
     p = live.pop(i)
     liveset.discard(p)
+    freed_once.add(p)
     lib.verif_closure_free(p)
     ctx.case(None)
     ctx.count("A:free")
@@ -278,7 +285,8 @@ class ApiWorld:
         return self.ffi.cast(SIGS[sig], cb)(*args)
 
 
-def part_b(ctx, ncreate, peak_target, rng=None, oracle_only=False, stop_at=None):
+def part_b(ctx, ncreate, peak_target, rng=None, oracle_only=False, stop_at=None, progress=lambda i: None):
+    """Runs in a forked child (see forked_part_b): returns (lines, expect) for the model comparison."""
     rng = rng or ctx.rng
     w = ApiWorld(ctx)
     ffi = w.ffi
@@ -414,6 +422,7 @@ def part_b(ctx, ncreate, peak_target, rng=None, oracle_only=False, stop_at=None)
                             ctx.fail(dict(base_case, op="call_pair", index=idx, tags=[e1[3], e2[3]], x=x),
                                      "two callbacks called from one C frame: got %r, want %r" % (got, want))
             idx += 1
+            progress(idx)
     sweep(idx)
     ctx.coverage["B_peak_live"] = peak
     ctx.coverage["B_created"] = created
@@ -421,8 +430,108 @@ def part_b(ctx, ncreate, peak_target, rng=None, oracle_only=False, stop_at=None)
     # let go of everything in a fixed order
     while live:
         live.pop()[0] = None
+    return lines, expect
+
+
+CHILD_TIMEOUT = 1500
+
+
+def forked_part_b(ctx, ncreate, peak_target, rng, oracle_only=False, stop_at=None):
+    """Part B creates, frees and *executes* closures of the backend under test; if the allocator or the callback
+    code is broken that can kill the process.  So it runs in a forked child which streams progress markers and
+    failures to the parent; dying from a signal is itself reported as a failure of the property at that operation."""
+    r, w = os.pipe()
+    sys.stdout.flush()
+    sys.stderr.flush()
+    base_case = {"part": "B", "rng": rng_tag(rng), "ncreate": ncreate, "peak_target": peak_target}
+    pid = os.fork()
+    if pid == 0:
+        code = 0
+        try:
+            os.close(r)
+            devnull = os.open(os.devnull, os.O_WRONLY)
+            os.dup2(devnull, 1)
+
+            def send(prefix, obj):
+                data = (prefix + json.dumps(common.jsonable(obj)) + "\n").encode()
+                while data:
+                    n = os.write(w, data)
+                    data = data[n:]
+            orig_fail = ctx.fail
+
+            def fail(case, detail, cls_hint=None):
+                send("!", {"case": case, "detail": detail})
+                return orig_fail(case, detail, cls_hint)
+            ctx.fail = fail
+            n_eval, n_fail = ctx.evaluations, len(ctx.failures)
+            lines, expect = part_b(ctx, ncreate, peak_target, rng=rng, oracle_only=oracle_only, stop_at=stop_at,
+                                   progress=lambda i: os.write(w, b"@%d\n" % i))
+            send("=", {"evaluations": ctx.evaluations - n_eval,
+                       "distinct": [list(k) for k in ctx._distinct if k[0] == "B"],
+                       "samples": ctx.samples, "distribution": ctx.distribution, "coverage": ctx.coverage,
+                       "lines": lines, "expect": expect})
+        except InfraError as e:
+            os.write(w, ("?" + json.dumps(str(e)) + "\n").encode())
+            code = 2
+        except BaseException:
+            os.write(w, ("?" + json.dumps(traceback.format_exc()[-2000:]) + "\n").encode())
+            code = 3
+        finally:
+            os._exit(code)
+    os.close(w)
+    chunks = []
+    deadline = time.time() + CHILD_TIMEOUT
+    while True:
+        left = deadline - time.time()
+        if left <= 0:
+            os.kill(pid, signal.SIGKILL)
+            os.waitpid(pid, 0)
+            os.close(r)
+            raise InfraError("forked callback history did not finish within %d s" % CHILD_TIMEOUT)
+        ready, _, _ = select.select([r], [], [], left)
+        if not ready:
+            continue
+        chunk = os.read(r, 1 << 20)
+        if not chunk:
+            break
+        chunks.append(chunk)
+    os.close(r)
+    _, status = os.waitpid(pid, 0)
+    last, result, early = -1, None, []
+    for line in b"".join(chunks).decode().split("\n"):
+        if not line:
+            continue
+        try:
+            if line[0] == "@":
+                last = int(line[1:])
+            elif line[0] == "!":
+                early.append(json.loads(line[1:]))
+            elif line[0] == "=":
+                result = json.loads(line[1:])
+            elif line[0] == "?":
+                raise InfraError("forked callback history failed: " + json.loads(line[1:]))
+        except ValueError:
+            pass              # a line cut short by the child's death
+    for f in early:
+        ctx.fail(f["case"], f["detail"])
+    if os.WIFSIGNALED(status):
+        sig = os.WTERMSIG(status)
+        ctx.count("B:child-died-signal-%d" % sig)
+        ctx.case(("B", "died", last))
+        ctx.fail(dict(base_case, op="died", index=last + 1, signal=sig),
+                 "the process died from signal %d in the create/drop/call history right after operation %d: a callback "
+                 "did not run its own function (its closure was corrupted or shared)" % (sig, last))
+        return
+    if result is None:
+        raise InfraError("forked callback history exited with status %r without a result" % (status,))
+    ctx.evaluations += result["evaluations"]
+    ctx._distinct.update(tuple(k) for k in result["distinct"])
+    ctx.samples = result["samples"]
+    ctx.distribution = result["distribution"]
+    ctx.coverage.update(result["coverage"])
     if oracle_only:
         return
+    lines, expect = result["lines"], result["expect"]
     out = ctx.driver(["reset"] + lines)[1:]
     for o, (case, want) in zip(out, expect):
         if o != want:
@@ -442,12 +551,12 @@ def tagged_rng(tag):
 def correspond(ctx):
     sys.path.insert(0, ctx.scratch)
     part_a(ctx, ctx.n(30000, 400000), rng=tagged_rng("C29/A/%d/%s" % (ctx.seed, ctx.tier)))
-    part_b(ctx, ctx.n(9000, 120000), ctx.n(3000, 20000), rng=tagged_rng("C29/B/%d/%s" % (ctx.seed, ctx.tier)))
+    forked_part_b(ctx, ctx.n(9000, 120000), ctx.n(3000, 20000), tagged_rng("C29/B/%d/%s" % (ctx.seed, ctx.tier)))
 
 
 def search(ctx):
-    part_b(ctx, ctx.n(40000, 400000), ctx.n(6000, 30000), rng=tagged_rng("C29/Bsearch/%d/%s" % (ctx.seed, ctx.tier)),
-           oracle_only=True)
+    forked_part_b(ctx, ctx.n(40000, 400000), ctx.n(6000, 30000), tagged_rng("C29/Bsearch/%d/%s" % (ctx.seed, ctx.tier)),
+                  oracle_only=True)
 
 
 def replay(ctx, obj):
@@ -456,8 +565,8 @@ def replay(ctx, obj):
     if case.get("part") == "A":
         part_a(ctx, case["nops"], rng=tagged_rng(case["rng"]), oracle_only=True, stop_at=case.get("index"))
     else:
-        part_b(ctx, case["ncreate"], case["peak_target"], rng=tagged_rng(case["rng"]), oracle_only=True,
-               stop_at=case.get("index"))
+        forked_part_b(ctx, case["ncreate"], case["peak_target"], tagged_rng(case["rng"]), oracle_only=True,
+                      stop_at=case.get("index"))
     for f in ctx.failures[n0:]:
         print("fails:", f["detail"], f["case"])
     if len(ctx.failures) == n0:
